@@ -484,7 +484,8 @@ def event_send_run(ck):
                 seen, delivered = [], []
                 dest = Obj('dest', {'event': lambda *a_, **k_: delivered.append((a_, k_))}, {'circuit': CIRC})
                 source = Obj('source', {}, {'name': 'SRC', 'circuit': CIRC})
-                env = {'self': 'SELF', src_p: source, data_p: {'value': 7}, 'self._dest': dest,
+                # the caller's data may carry a 'source' item of its own: the sender's name must replace it
+                env = {'self': 'SELF', src_p: source, data_p: {'value': 7, 'source': 'FORGED'}, 'self._dest': dest,
                        'self._etype': 'ETYPE', 'self._filters': tuple(make(k, seen) for k in kinds)}
                 glob = ModuleGlobals(prog, es.module, {'simulator.get_circuit': lambda: CIRC})
                 env['simulator.get_circuit'] = lambda: CIRC
